@@ -128,7 +128,8 @@ source_get_chunk(Source *source, void *buf, size_t n)
 
     size_t rest = n;
     while (rest > 0) {
-        const ssize_t get = once_source_get_chunk(source, buf, rest);
+        const ssize_t get = once_source_get_chunk(
+            source, (unsigned char*)buf + (n - rest), rest);
         if (get == -EINTR || get == -EAGAIN) {
             continue;
         } else if (get < 0) {
@@ -181,7 +182,8 @@ sink_put_chunk(Sink *sink, const void *buf, size_t n)
 
     size_t rest = n;
     while (rest > 0) {
-        const ssize_t put = once_sink_put_chunk(sink, buf, rest);
+        const ssize_t put = once_sink_put_chunk(
+            sink, (const unsigned char*)buf + (n - rest), rest);
         if (put == -EINTR || put == -EAGAIN) {
             continue;
         } else if (put < 0) {
